@@ -2,9 +2,12 @@
 # usage: tools_try_seed.sh <patch> <PID> [more PIDs]  -- applies a seeded patch to /repo, runs the quick checks, reverts.
 patch=$1; shift
 git -C /repo apply "$patch" || exit 9
+# the checks rewrite evidence/*.json: keep the clean-tree evidence aside while a seeded patch is applied
+rm -rf /tmp/evidence.keep && cp -r /verif/evidence /tmp/evidence.keep
 for pid in "$@"; do
   cmd=$(python3 -c "import json,sys;m=json.load(open('/verif/MANIFEST.json'));print([c['quick_cmd'] for c in m['checks'] if c['property_id']=='$pid'][0])" 2>/dev/null)
   [ -z "$cmd" ] && cmd="python3-vt -m pyvc.driver $pid"
   (cd /verif && bash -c "$cmd"; echo "exit=$?") 2>&1 | grep -E "VIOLATION|UNDECIDED|CHECKER|KNOWN|OK property|exit=" | cut -c1-400
 done
 git -C /repo checkout -- .
+rm -rf /verif/evidence && mv /tmp/evidence.keep /verif/evidence
